@@ -293,32 +293,45 @@ class HandOff:
             item = self.req.get()
             if item is None:
                 return
-            frame, event, arg, box = item
+            fn, frame, event, arg, box = item
             try:
-                box['ret'] = self._entry(frame, event, arg)
+                box['ret'] = self._entry(fn, frame, event, arg)
             except BaseException as e:  # noqa
                 box['exc'] = e
             box['done'].set()
 
-    def _entry(self, frame, event, arg):
-        # the frame below this one is the handler's entry frame
-        return self.handler.trace_call(frame, event, arg)
+    def _entry(self, fn, frame, event, arg):
+        # the frame below this one is the entry frame of whatever trace function the agent gave us for this event
+        return fn(frame, event, arg)
 
     def tracer(self, host_dir):
         ho = self
+        first = self.handler.trace_call
 
-        def W(frame, event, arg):
-            if not frame.f_code.co_filename.startswith(host_dir):
-                return W
+        def ask(fn, frame, event, arg):
             box = {'done': threading.Event()}
-            ho.req.put((frame, event, arg, box))
+            ho.req.put((fn, frame, event, arg, box))
             if not box['done'].wait(30):
                 raise RuntimeError('vf: agent thread did not answer')
             ho.calls += 1
             if 'exc' in box:
                 ho.escapes.append((event, frame.f_lineno, box['exc']))
+                return fn
+            return box['ret']
+
+        def local(fn):
+            def L(frame, event, arg):
+                r = ask(fn, frame, event, arg)
+                if r is not None and r != fn:
+                    return local(r)       # CPython: a non-None result replaces the frame's local trace function
+                return L
+            return L
+
+        def W(frame, event, arg):
+            if not frame.f_code.co_filename.startswith(host_dir):
                 return W
-            return W if box['ret'] is not None else None
+            r = ask(first, frame, event, arg)
+            return local(r) if r is not None else None
 
         return W
 
